@@ -471,6 +471,20 @@ def rng_frame(p, res):
     # 4. css: CSSProperty shifts every relative offset by `offset`; split_value gets the document offset of its slice
     cp = p.func('action_utils.css.CSSProperty.__init__')
     s = src_of(cp.node)
+    afters = [n for n in cp.body_nodes() if isinstance(n, ast.Assign) and src_of(n.targets[0]) == 'self.after']
+    if len(afters) == 1:
+        from ..linear import linear
+        v = afters[0].value
+        branches = [v.body, v.orelse] if isinstance(v, ast.IfExp) else [v]
+        if isinstance(v, ast.BinOp) and isinstance(v.op, ast.Add) and isinstance(v.right, ast.IfExp):
+            branches = [ast.BinOp(left=v.left, op=ast.Add(), right=v.right.body), ast.BinOp(left=v.left, op=ast.Add(), right=v.right.orelse)]
+        lins = [linear(b) for b in branches]
+        if all(l is not None and l.get('offset') == 1 for l in lins):
+            res.ok('CSSProperty.after: every branch is offset + <fragment offset>')
+        else:
+            res.bad(F('RNG-FRAME', cp, afters[0], src_of(afters[0]), '`after` is a document offset: every branch of the expression must add `offset` exactly once (operator precedence: a conditional expression binds weaker than +)'))
+    else:
+        res.bad(F('RNG-FRAME', cp, cp.node, 'self.after = ...', 'after offset missing'))
     for w in ('self.name = (offset + name[0], offset + name[1])', 'self.value = (offset + start, offset + end)',
               'self.value_tokens = split_value(code[start:end], offset + start)', 'self.before = before'):
         if w in s:
